@@ -16,6 +16,10 @@ import (
 type C08Plan struct {
 	Graph    GraphSpec `json:"graph"`
 	Refs     []int     `json:"refs"`     // server ref tips
+	RefKinds []string  `json:"ref_kinds,omitempty"` // per ref: "" / head, tag, remote (remotes/origin/..), tx, custom: every ref counts
+	// Fault: a read of the server's object store fails once; the call that met it is repeated on the same finder,
+	// and the final answer must be what a fault-free negotiation gives
+	Fault *Fault `json:"fault,omitempty"`
 	NoTable  []int     `json:"no_table"` // shallow commits on the server (table absent)
 	Wants    []int     `json:"wants"`
 	Haves    [][]int   `json:"haves"` // batches; -1-k = unknown hash k
@@ -44,6 +48,14 @@ func init() {
 			}
 			if r.Chance(0.15) {
 				p.NoTable = append(p.NoTable, r.Intn(n))
+			}
+			if r.Chance(0.5) {
+				for range p.Refs {
+					p.RefKinds = append(p.RefKinds, Pick(r, []string{"head", "head", "tag", "remote", "remote", "tx", "custom"}))
+				}
+			}
+			if r.Chance(0.2) {
+				p.Fault = &Fault{Op: "get", Prefix: "com/", Nth: r.Range(1, 40)}
 			}
 			nw := r.Range(1, 3)
 			for i := 0; i < nw; i++ {
@@ -133,7 +145,24 @@ func execC08(t *testing.T, raw json.RawMessage, res *Result) {
 	rs := NewMemRef()
 	reachable := map[int]bool{}
 	for k, x := range p.Refs {
-		rs.Set(fmt.Sprintf("heads/b%d", k), sums[x])
+		name := fmt.Sprintf("heads/b%d", k)
+		if k < len(p.RefKinds) {
+			switch p.RefKinds[k] {
+			case "", "head":
+			case "tag":
+				name = fmt.Sprintf("tags/t%d", k)
+			case "remote":
+				name = fmt.Sprintf("remotes/origin/b%d", k)
+			case "tx":
+				name = fmt.Sprintf("txs/a0b1c2d3-0000-4000-8000-0000000000c8/b%d", k)
+			case "custom":
+				name = fmt.Sprintf("mirror/b%d", k)
+			default:
+				res.Invalid("ref kind")
+				return
+			}
+		}
+		rs.Set(name, sums[x])
 		for a := range anc[x] {
 			reachable[a] = true
 		}
@@ -166,6 +195,14 @@ func execC08(t *testing.T, raw json.RawMessage, res *Result) {
 	for it := 0; it < rep; it++ {
 		before := w.Steps
 		f := apiutils.NewClosedSetsFinder(st, rs, p.Depth)
+		faultRetried := false
+		st.Faults = nil
+		if p.Fault != nil {
+			ff := *p.Fault
+			ff.seen, ff.Fired = 0, 0
+			p.Fault = &ff
+			st.Faults = []*Fault{p.Fault}
+		}
 		rounds := 0
 		var acked = map[int]bool{}
 		finished := false
@@ -200,6 +237,13 @@ func execC08(t *testing.T, raw json.RawMessage, res *Result) {
 				wv = wants
 			}
 			acks, err := f.Process(wv, haves, done)
+			if err != nil && p.Fault != nil && p.Fault.Fired > 0 && !faultRetried {
+				// the store read failed: the server-side caller repeats the same request on the same session
+				faultRetried = true
+				res.fault("store_read_error", 1)
+				acks, err = f.Process(wv, haves, done)
+				res.probe("process_repeated_after_read_error", 1)
+			}
 			rounds++
 			if w.Steps-before > budget {
 				res.Violate("step-budget", "negotiation used %d store reads after %d rounds (budget %d for %d commits)", w.Steps-before, rounds, budget, n)
@@ -258,6 +302,12 @@ func execC08(t *testing.T, raw json.RawMessage, res *Result) {
 			return
 		}
 		commits, err := f.CommitsToSend()
+		if err != nil && p.Fault != nil && p.Fault.Fired > 0 && !faultRetried {
+			faultRetried = true
+			res.fault("store_read_error", 1)
+			commits, err = f.CommitsToSend()
+			res.probe("commits_to_send_repeated_after_read_error", 1)
+		}
 		if err != nil {
 			res.Violate("process-error", "CommitsToSend: %v", err)
 			return
